@@ -222,6 +222,9 @@ def _arith_sites(f):
         for st in b["stmts"]:
             if st["k"] == "assign" and st["rv"]["k"] == "binop":
                 op = st["rv"]["op"].replace("WithOverflow", "").replace("Unchecked", "")
+                a_ = st["rv"].get("a") or {}
+                if op == "Sub" and a_.get("k") == "const" and str(a_.get("named", "")).endswith("SizedTypeProperties::ALIGN"):
+                    continue   # the compiler's own alignment check before a raw-pointer dereference (debug assertions only)
                 if op in ("Add", "Sub", "Mul", "Div", "Rem", "Shl", "Shr"):
                     c[op] = c.get(op, 0) + 1
         t = b["term"]
